@@ -789,6 +789,11 @@ func (m *c11Model) a5Window(locs *c11Locs) {
 // variable of a counting loop that started at 0, runs under idx < len(list) and (on every path that completes
 // an iteration) is advanced by exactly one. Returns the loop key.
 func (m *c11Model) isPosition(st *c11St, idx, list *c11V) (string, bool) {
+	return c11IsPosition(m.paths, st, idx, &c11V{k: "call", name: "len", xs: []*c11V{list}})
+}
+
+// c11IsPosition: see isPosition; lenL is the length the positions run up to.
+func c11IsPosition(paths []c11Out, st *c11St, idx, lenL *c11V) (string, bool) {
 	if lk, ok := c11IsIterKey(idx); ok {
 		return lk, true
 	}
@@ -804,11 +809,10 @@ func (m *c11Model) isPosition(st *c11St, idx, list *c11V) (string, bool) {
 			}
 		}
 	}
-	lenL := &c11V{k: "call", name: "len", xs: []*c11V{list}}
 	if !started || st.truth(c11Bin(token.LSS, idx, lenL)) != c11T {
 		return "", false
 	}
-	for _, p := range m.paths {
+	for _, p := range paths {
 		if p.ctl == c11Back && p.loopKey == lk {
 			if end := p.st.env[idx.obj]; end == nil || end.key() != c11Bin(token.ADD, idx, c11Int(1)).key() {
 				return "", false
